@@ -17,7 +17,9 @@ LEVEL = 'exploration'
 HASHSEEDS = {'quick': 1, 'thorough': 1}
 
 MIB = 1024 * 1024
-SIZES = {'0.4': 419430, '1.0': MIB, '1.5': MIB + MIB // 2, '2.0': 2 * MIB, 'sd': 313}
+SIZES = {'0.4': 419430, '1.0': MIB, '1.5': MIB + MIB // 2, '2.0': 2 * MIB, 'sd': 313,
+         # sizes that separate 10^6 from 2^20 (used in the many-equal-blobs cases only)
+         '1e6': 1_000_000, '1MiB-1': MIB - 1, '2e6': 2_000_000}
 SIZE_NAMES = ['0.4', '1.0', '1.5', '2.0']
 
 
@@ -59,6 +61,10 @@ def plan(case):
         pp = pend.get('dlf', []) if k == 0 else []
         if part or pp:
             stream(f'dlf{k}', part, pp, True, False)
+    for i, size in enumerate(case.get('pub') or []):
+        # a publication through the real entry point (the call sequence of StreamManager.create)
+        stream(f'pub{i}', [size], [], True, True)
+        streams[-1]['real'] = True
     for x in case.get('extra') or []:
         if x == 'sdonly':
             stream('xsdonly', [], [], True, False)
@@ -323,6 +329,8 @@ class Case:
         from lbry.stream.descriptor import StreamDescriptor
         from lbry.blob.blob_info import BlobInfo
         tag = spec['tag']
+        if spec.get('real'):
+            return await self.publish_real(spec)
         data = []
         for d in spec['data']:
             if d['share'] and d['share'] in self.shared:
@@ -350,6 +358,34 @@ class Case:
             else:
                 await self.st.save_downloaded_file(desc.stream_hash, 'file.bin', os.path.join(self.d, 'dl'), 0.0)
 
+    async def publish_real(self, spec):
+        """What StreamManager.create does on blob manager and storage (the ManagedStream object it then builds plays
+        no part here): create_stream with the manager's blob_completed callback, store_stream with the descriptor
+        blob obtained through blob_manager.get_blob(sd_hash, is_mine=True), save_published_file."""
+        from lbry.stream.descriptor import StreamDescriptor
+        tag = spec['tag']
+        size = SIZES[spec['data'][0]['size']]
+        path = os.path.join(self.d, 'dl', f'{tag}.bin')
+        unit = hashlib.sha384(f"{tag}/{self.case.get('seed', 0)}".encode()).digest()
+        with open(path, 'wb') as f:
+            f.write((unit * (size // len(unit) + 1))[:size - 1])     # size-1 plaintext bytes pad to one blob of `size`
+
+        def ivs():
+            i = 0
+            while True:
+                i += 1
+                yield i.to_bytes(16, 'big')
+        desc = await StreamDescriptor.create_stream(
+            self.loop, self.bd, path, key=unit[:16], iv_generator=ivs(),
+            blob_completed_callback=self.bm.blob_completed)
+        await self.st.store_stream(self.bm.get_blob(desc.sd_hash, is_mine=True), desc)
+        await self.st.save_published_file(desc.stream_hash, os.path.basename(path), os.path.dirname(path), 0)
+        os.remove(path)
+        for info in desc.blobs[:-1]:
+            self.blobs.append(B(info.blob_hash, info.length, self.next_age(), True, False, tag, True, True))
+        self.blobs.append(B(desc.sd_hash, os.path.getsize(os.path.join(self.bd, desc.sd_hash)), self.next_age(), True,
+                            True, tag, True, True))
+
     async def add_network(self, specs):
         blobs = [self.mk(n['size'], False, False, None, False, n['fin']) for n in specs]
         fin = [(b.h, b.size, b.age, False) for b in blobs if b.finished]
@@ -369,9 +405,15 @@ class Case:
         self.st = SQLiteStorage(self.conf, ':memory:', loop=self.loop)
         await self.st.open()
         streams, net = plan(self.case)
+        if any(sp.get('real') for sp in streams):
+            # the publishing session; the cleanup then happens after a restart like in every other case
+            self.bm = BlobManager(self.loop, self.bd, self.st, self.conf)
+            await self.bm.setup()
         for spec in streams:
             await self.add_stream(spec)
         await self.add_network(net)
+        if getattr(self, 'bm', None) is not None:
+            self.bm.stop()
         self.bm = BlobManager(self.loop, self.bd, self.st, self.conf)
         await self.bm.setup()
         if self.case.get('hist'):
@@ -575,6 +617,10 @@ def run_case(case, res, log=None):
                 if over_before:
                     nontrivial = nontrivial or pass_no <= 2
                     res.witness('over_limit_pass')
+                    if case.get('pub') and not network and not model.expected(False, limits['content'])[2]:
+                        res.witness('content_over_limit_with_only_really_published_blobs_left')
+                    if len(deleted) >= 10:
+                        res.witness('pass_that_deleted_ten_or_more_blobs')
                     if case.get('hist') and not network and any(b.own for b in model.blobs.values()):
                         res.witness('content_pass_over_limit_after_a_bookkeeping_history_on_own_blobs')
                     if entry == 'loop' and network and limits['content'] == 0 and limits['network'] == 0:
@@ -648,6 +694,7 @@ def case_key(case):
     return (tuple(case['own']), tuple(case['dlf']), tuple(case['dln']), tuple(case['net']), case.get('split', 1),
             _pend_key(case) + ((('first',),) if case.get('pend_first') else ()),
             tuple(case.get('extra') or ()) + ((case['hist'],) if case.get('hist') else ()) +
+            ((('pub',) + tuple(case['pub']),) if case.get('pub') else ()) +
             ((('entry', case['entry']),) if case.get('entry') else ()),
             tuple(case['lc']), tuple(case['ln']))
 
@@ -689,8 +736,11 @@ def enumerate_cases(quick):
                    ([], ['1.5', '1.5'], ['2.0'], ('x10',))]
     cases = []
 
-    def add(own, dln, dlf, net, lc, ln, split=1, pend=None, extra=None, pend_first=False, hist=None, entry=None):
+    def add(own, dln, dlf, net, lc, ln, split=1, pend=None, extra=None, pend_first=False, hist=None, entry=None,
+            pub=None):
         c = {'own': own, 'dln': dln, 'dlf': dlf, 'net': net, 'split': split, 'lc': lc, 'ln': ln}
+        if pub:
+            c['pub'] = list(pub)
         if hist:
             c['hist'] = hist
         if entry:
@@ -744,7 +794,7 @@ def enumerate_cases(quick):
                 add(['1.0'], ['1.0'], dlf, [], lc, ln, pend={'own': ['1.5'], 'dln': ['1.5'], 'dlf': ['1.5'],
                                                             'net': ['1.5']})
     # E: odd streams
-    for x in ('sdonly', 'sdown', 'dataown', 'shared'):
+    for x in ('sdonly', 'sdown', 'dataown') + (() if quick else ('shared',)):     # shared: tallied only
         for dlf in seqs(1 if quick else 2):
             for own in ([], ['1.5']):
                 for lc in LIMIT_SPECS:
@@ -765,6 +815,19 @@ def enumerate_cases(quick):
                 for lc in LIMIT_SPECS:
                     for net, ln in (([], ('abs', 0)), (['1.5'], ('rel', 0))):
                         add(own, [], dlf, net, lc, ln, hist=hist)
+    # H: publications made through the real entry point x limits at and below what they occupy
+    for pub in (['1.5'], ['2.0', '1.0']):
+        for dlf in ([], ['1.0']):
+            for lc in LIMIT_SPECS + [('abs', 1)]:
+                for net, ln in (([], ('abs', 0)),) + (((['1.5'], ('abs', 0)),) if not quick else ()):
+                    add([], [], dlf, net, lc, ln, pub=pub)
+    add([], [], ['1.0'], [], ('rel', -1), ('abs', 0), pub=['1.5'], entry='loop')
+    # I: many equal blobs in one pass, sizes that separate 10^6 from 2^20
+    for size in ('1e6', '1MiB-1', '2e6') + (() if quick else ('2.0',)):
+        for k in (12, 24, 40):
+            for spec in (('rel', -1), ('rel', -(k // 4)), ('rel', -(k // 2))):
+                add([], [], [size] * k, [], spec, ('abs', 0))
+                add([], [], [], [size] * k, ('abs', 0), spec)
     seen, out = set(), []
     for c in cases:
         lim = case_limits(c)
@@ -778,7 +841,7 @@ def enumerate_cases(quick):
     # simplest first: fewest blobs
     out.sort(key=lambda c: (len(c['own']) + len(c['dln']) + len(c['dlf']) + len(c['net']) +
                             sum(len(v) for v in (c.get('pend') or {}).values()) + 2 * len(c.get('extra') or ()) +
-                            (3 if c.get('hist') else 0) + (1 if c.get('entry') else 0),))
+                            (3 if c.get('hist') else 0) + (1 if c.get('entry') else 0) + 2 * len(c.get('pub') or ()),))
     return out
 
 
@@ -806,6 +869,8 @@ def fmt_case(c):
         s += f"pending{'(oldest)' if c.get('pend_first') else ''}={c['pend']} "
     if c.get('extra'):
         s += f"extra={c['extra']} "
+    if c.get('pub'):
+        s += f"published-through-the-real-path={c['pub']} "
     if c.get('hist'):
         s += f"history-before-cleanup={c['hist']} "
     if c.get('entry'):
@@ -845,7 +910,10 @@ def run(ctx):
               'reduced mixes x all 36 limit pairs incl. (0,0); (G) bookkeeping histories on the own and downloaded '
               'blobs before the cleanup (start with the files missing then restored, re-completion through '
               'blob_completed, add_blobs again with the other is_mine value, delete_blobs keeping rows + restart + '
-              'files restored + restart): ownership stays what was recorded first; sizes {0.4,1.0,1.5,2.0} MiB, distinct ages, limits {0, used-2, used-1, used, used+1, 10*used} '
+              'files restored + restart): ownership stays what was recorded first; (H) publications made through the '
+              'real entry point (create_stream + blob_completed, store_stream with get_blob(sd_hash, is_mine=True), '
+              'save_published_file; real encrypted blobs) x limits at and below what they occupy; (I) 12/24/40 equal '
+              'blobs of 1,000,000 / 1,048,575 / 2,000,000 bytes in one class x limits used-1, used-k/4, used-k/2; sizes {0.4,1.0,1.5,2.0} MiB, distinct ages, limits {0, used-2, used-1, used, used+1, 10*used} '
               'relative to the REAL usage (negative ones dropped). Each case runs clean(), clean() again, then a '
               'new download + a new network blob and clean() a third time; deletions are attributed to the content / '
               'network half of each clean(), a half that does not run is judged as an empty half. Non-trivial = a '
@@ -875,6 +943,8 @@ def run(ctx):
                             'pass_exactly_at_its_limit_after_an_earlier_pass',
                             'within_limit_pass_with_pending_rows_present',
                             'period_of_the_cleaning_loop', 'no_pass_after_stop',
+                            'content_over_limit_with_only_really_published_blobs_left',
+                            'pass_that_deleted_ten_or_more_blobs',
                             'periodic_network_pass_over_limit_with_both_limits_zero',
                             'content_pass_over_limit_after_a_bookkeeping_history_on_own_blobs'],
     )
